@@ -13,7 +13,7 @@
 (* (for patterns that have one) the text field w bound by name.  A          *)
 (* behaviour maps the bound fields to a token or declines.                  *)
 (***************************************************************************)
-EXTENDS Units
+EXTENDS Kinds
 
 Languages == {"en", "tr"}
 Baseline == [k |-> "baseline"]     \* "as if no rule applied": what the line evaluates to on a calculator without custom rules
